@@ -63,7 +63,10 @@ def gen_backward_case(rng, idx):
 
 
 def gen_mtl_case(rng, idx):
-    prog, feats, losses, tasks, shared = ajlib.gen_mtl(rng, nested=False, alias=True if idx % 2 == 0 else None)
+    if idx % 6 == 5:
+        prog, feats, losses, tasks, shared = ajlib.gen_mtl_alias_pair(rng)
+    else:
+        prog, feats, losses, tasks, shared = ajlib.gen_mtl(rng, nested=False, alias=True if idx % 2 == 0 else None)
     t = len(losses)
     leaves = [x for x in range(prog.n()) if prog.is_leaf[x] and prog.req[x]]
     calls = []
@@ -93,8 +96,11 @@ def gen_mtl_case(rng, idx):
                 "agg": ajcheck.rand_agg(rng, t, 0.7), "k": k, "retain": False,
                 "param_kind": rng.choice(["list", "gen", "iter", "tuple"])}
         calls.append(ajcheck.prepare_call(prog, call))
-    return {"id": idx, "kind": "mtl", "prog": prog.to_json(), "calls": calls,
-            "old": ajcheck.rand_old(rng, prog, leaves)}
+    old = ajcheck.rand_old(rng, prog, leaves)
+    if idx % 6 == 5:
+        own = {q for ps in tasks for q in ps}
+        old = {k: v for k, v in old.items() if int(k) not in own}       # task parameters start without a .grad
+    return {"id": idx, "kind": "mtl", "prog": prog.to_json(), "calls": calls, "old": old}
 
 
 def twin_compare(chk, case, call, dtype, tol):
